@@ -13,6 +13,7 @@
     ChaCha20/Poly — the keystream function returns the requested length, tags are 16 bytes.
 -/
 import XC.Proofs.C25_Seq
+import XC.Proofs.C25_KeyMat
 namespace XC.C25
 open XC.C24 (be32_u32be u32be_length)
 
